@@ -40,13 +40,17 @@ def gen_preserve_tree(rng: random.Random) -> Dict[str, Any]:
                 "    return x + {j}\n", "    y = x * {j}\n    return y\n", "    if x > {j}:\n        return 1\n    else:\n        return 2\n",
                 "    out = []\n    for i in range(x):\n        out.append(i * {j})\n    return out\n",
             ]).format(j=j + 1)
-            parts.append(f"def {fn}(x):\n{body}")
+            # coroutines are functions too: 'async def' with a name some rule would rename
+            is_async = rng.random() < 0.2
+            if is_async:
+                fn = {"snake": f"fetch_{k}_{j}", "Camel": f"FetchData{k}x{j}", "_private": f"_fetch_{k}_{j}", "mixedCase": f"fetchData{k}x{j}"}[style]
+            parts.append(f"{'async ' if is_async else ''}def {fn}(x):\n{body}")
             d["funcs"].append(fn)
         if rng.random() < 0.5 and d["funcs"]:
             # a duplicate of an existing function under another name
             src_fn = d["funcs"][0]
             dup = f"copy_of_{k}"
-            first = [p for p in parts if p.startswith(f"def {src_fn}(")][0]
+            first = [p for p in parts if p.startswith((f"def {src_fn}(", f"async def {src_fn}("))][0]
             parts.append(first.replace(f"def {src_fn}(", f"def {dup}(", 1))
             d["funcs"].append(dup)
         for c in range(rng.randint(0, 2)):
@@ -56,9 +60,15 @@ def gen_preserve_tree(rng: random.Random) -> Dict[str, Any]:
             if rng.random() < 0.5:
                 body.append(f"    attr_{c} = {c + 3}\n")
             for m in range(rng.randint(1, 3)):
-                mk = rng.choice(["uses_self", "no_self", "static", "cls"])
+                mk = rng.choice(["uses_self", "no_self", "static", "cls", "async_self", "camel_self"])
                 mn = f"method_{k}_{c}_{m}"
-                if mk == "uses_self":
+                if mk == "async_self":
+                    mn = rng.choice([f"sendRequest{k}x{c}x{m}", mn])
+                    body.append(f"    async def {mn}(self, x):\n        self.last = x\n        return x\n")
+                elif mk == "camel_self":
+                    mn = f"describeSelf{k}x{c}x{m}"
+                    body.append(f"    def {mn}(self, x):\n        self.last = x\n        return x\n")
+                elif mk == "uses_self":
                     body.append(f"    def {mn}(self, x):\n        self.last = x\n        return x\n")
                 elif mk == "no_self":
                     body.append(f"    def {mn}(self, x):\n        return x * 2\n")
@@ -155,6 +165,15 @@ def gen_preserve_tree(rng: random.Random) -> Dict[str, Any]:
         needs_flag = any(n.startswith("if REFERENCES") for n in nested)
         body = "\n".join(flat) + "\n\n" + ("REFERENCES = []\n" if needs_flag else "") + "\n".join(nested) + "\n" + "".join(f"{l}\n" for l in dict.fromkeys(setup)) + "REFERENCES = [\n" + "".join(f"    {r},\n" for r in dict.fromkeys(refs)) + "]\n"
         rel = f"{rng.choice(['vsc', 'vsc', 'vsz'])}{c}_client.py"  # before or after the libraries in sorted order
+        place = rng.random()
+        if place < 0.22:
+            # several preserved files with one base name in different plain folders
+            rel = f"vsapps/{rng.choice(['export', 'report', 'tool'])}{c}/main.py"
+        elif place < 0.36:
+            # a preserved file with the base name of a formatted library file
+            cand = f"vstests/{rng.choice(libs)['name']}.py"
+            if cand not in files:
+                rel = cand
         files[rel] = body
         clients.append(rel)
     return {"files": files, "libs": libs, "clients": clients}
